@@ -171,4 +171,19 @@ CLAIMS = {
                 "delete_test_case_chromosome, local search and the histories themselves (composition of the per-function "
                 "contracts) are not discharged by the solver.",
     },
+    "C35": {
+        "category": "proof",
+        "text": "Unbounded proof of the report helpers on the real code: CoverageEntry/LineAnnotation addition is componentwise; "
+                "_get_line_to_branch_coverage and _get_line_to_branchless_code_object_coverage return, per source line, an "
+                "entry for exactly the lines that carry a predicate / branch-less code object, with 0 <= covered <= existing "
+                "(2 per predicate, even), 'covered == existing' exactly when every outcome of every predicate (every code "
+                "object) on that line is covered by the merged trace and 'covered > 0' exactly when some is; "
+                "_get_line_annotations_for_branch_coverage copies those entries and its total is their sum.",
+        "note": "the totals clause of the statement (report totals == tracked coverage; annotations sum to totals; line shown "
+                "covered iff covered) is about get_coverage_report, which is outside the verifier's subset (closures, "
+                "inspect, configuration) and about sums over dict values (no induction): it is checked only by the bounded "
+                "stand-in (real get_coverage_report over an exhaustively enumerated small registry/suite scope, stated in "
+                "the evidence), never counted as proved. Assumed: registered line numbers lie inside the module source; line "
+                "ids map injectively to line numbers; the HTML/XML renderers are not covered.",
+    },
 }
